@@ -7,6 +7,48 @@ ids = [json.loads(l)["id"] for l in open(root + "/properties.jsonl")]
 
 # id -> (technique, level text, level note, design ref)
 CHECKS = {
+    "C02": (
+        "property-based testing (proptest): matrices built by class (staircase, near-staircase, invertible P*L*U tail, singular by construction, square, single row); oracle = own GF(2) rank of the tail + own syndrome, systematic prefix and linearity over all 2^k messages (k <= 8)",
+        "Generated-input search against an independent GF(2) bitset elimination and syndrome. Exploration only.",
+        "Trusts the harness's bitset GF(2) algebra (rank, product) used both to construct invertible tails and to decide the expected verdict.",
+        "DESIGN.md §4 C02",
+    ),
+    "C03": (
+        "differential property testing (proptest): checker-supplied arithmetics (exact wrapping-integer min-sum, free hash-term algebra, tracing wrappers) plugged into the generic decoders vs an own edge-map interpreter of the two textbook schedules; brute-force posteriors on generated forests for the exactness clause",
+        "Reference-model comparison on generated (H, LLR, limit) incl. degree-0/1 checks; order-independent arithmetics make equality exact; exactness clause compared with enumeration of all codewords within a derived tolerance. Exploration only.",
+        "Trusts the harness interpreter as the definition of the textbook schedules (with the zero-iteration shortcut C01 requires) and the brute-force posterior computation; float tolerance 16*eps*E*(1+e^M/2)*(1+|L|).",
+        "DESIGN.md §4 C03",
+    ),
+    "C04": (
+        "property-based testing + exhaustive enumeration (8-bit types: all degree-2 vectors, degree 3 partially in quick and completely in thorough) against an own numerically stable box-plus reference with derived tolerances",
+        "Every emitted check message is compared with the exact box-plus (or the documented approximation bounds / the real-valued counterpart within accumulated table rounding). Exhaustive for 8-bit degree 2 (and 3 in thorough), random beyond. Exploration only.",
+        "Trusts the own box-plus reference (cross-checked at start-up against the tanh form) and the first-order error models behind the tolerances; working range |x| <= 30 (f64) / 12 (f32).",
+        "DESIGN.md §4 C04",
+    ),
+    "C05": (
+        "property-based testing (proptest) against exact i64 arithmetic (8-bit types) and f64 sums (float types); any-bit-pattern f64 generator for the quantiser; exhaustive i16 sweep for var_llr_to_llr; overflow checks on; libFuzzer byte-tape campaign in the thorough tier",
+        "Exact-model comparison of the variable rule, quantiser and layered primitive for all 24 types on generated inputs (degrees to 200, reachable-envelope states by construction). Exploration only.",
+        "Library and harness are built with overflow-checks and debug-assertions so wrap-around panics; quantiser ties may round either way.",
+        "DESIGN.md §4 C05",
+    ),
+    "C09": (
+        "property-based testing (proptest): matrices by class (full rank / rank deficient by construction, far-right pivots, zero and duplicate columns, square); oracle = own GF(2) rank, column-multiset equality, invertible tail, Encoder::from_h accepts",
+        "Generated-input search against independent bitset elimination. Exploration only.",
+        "Trusts the harness's GF(2) rank; 'code unchanged up to permutation' is checked as equality of column multisets.",
+        "DESIGN.md §4 C09",
+    ),
+    "C11": (
+        "property-based testing (proptest): structured graph generator (forests, cycles with pendant trees, two cycles, theta graphs, dense, complete bipartite) x every root x bounds 0..22 and MAX; oracle = plain BFS + edge-deletion shortest cycle through a node",
+        "Generated-input search against an obviously-correct (slow) definition of distances, local girth and girth. Exploration only.",
+        "Trusts the own queue BFS and the edge-deletion definition of the shortest cycle through a node.",
+        "DESIGN.md §4 C11",
+    ),
+    "C16": (
+        "property-based testing (proptest): configuration/seed generator; validity predicates (weights, own girth, uniformity), exists-a-greedy-order search for PEG, determinism across threads, metamorphic seed sensitivity, seed search under rayon pools of 1/2/4/16 threads vs a sequential oracle",
+        "Generated configurations and seeds checked against validity predicates and a sequential re-run oracle. Rayon schedules are sampled (pool sizes), not enumerated. Exploration only.",
+        "Trusts own girth/BFS; seed sensitivity demands only that 16 (MacKay-Neal) / 12 (PEG) seeds do not all coincide in roomy configurations.",
+        "DESIGN.md §4 C16",
+    ),
     "C01": (
         "property-based testing (proptest): structured (H, LLR, limit) generator x all 36 factory-built decoders; validity-predicate oracle (own syndrome, iteration-count clauses)",
         "Generated-input search with an independent validity predicate over the returned Result; panics are caught and reported with the input. Exploration only.",
